@@ -205,6 +205,12 @@ def run(ctx):
     ctx.holds('V2', m, None, 'no visit result is used as a truth value in the visitor', construct='truth-value scan',
               trivial=True)
 
+    # ---- V6 (C09 R09c): argument lists are not shared between nodes
+    ctx.rule('V6', 'no mutable default argument value is changed in place or stored: the argument list of one node never '
+                   'accumulates the nodes of another (a visitor would see nodes of other documents) (C09 R09c)', 4)
+    from . import c09 as _c09, c05 as _c05
+    _c09._mutable_defaults(_c05._Sub(ctx, 'V6'), repo)
+
     return 'proof', EXPLANATION
 
 
@@ -389,6 +395,16 @@ def _check_descend(ctx, m, fn):
         return
     ctx.holds('V3', m, fn, 'results are collected before returning (no iterator is returned)',
               construct=label + ': eager results', trivial=True)
+    # what is handed back is the list of child results (or the default for a missing list): never the
+    # result of another dispatch on the list as a whole
+    for r_ in [x for x in iter_own(fn) if isinstance(x, ast.Return) and x.value is not None]:
+        v_ = r_.value
+        plain = isinstance(v_, (ast.Name, ast.List, ast.ListComp, ast.Constant)) or (
+            isinstance(v_, ast.Call) and isinstance(v_.func, ast.Name) and v_.func.id == 'list')
+        ctx.decide('V3', plain, m, r_, 'returns the collected results / the default: ' + short(v_, 40),
+                   'descend_into_nodelist returns %s instead of the list of its children\'s results: the parent receives '
+                   'one value for the whole list (an extra callback is made for every body) rather than one result per '
+                   'child in order' % short(v_, 60), construct=label + ': ' + short(r_, 50), trivial=True)
     if len(loops) == 1 and isinstance(loops[0], ast.For) and not comps:
         lp = loops[0]
         ok_iter = unparse(lp.iter) == p
